@@ -9,10 +9,17 @@ impl View for U64Set {
     uninterp spec fn view(&self) -> Set<u64>;
 }
 
-#[verifier::external_body]
-pub fn std_collect_set(cells: &[u64]) -> (r: U64Set)
-    ensures r@ == cells@.to_set(),
-{ U64Set { inner: cells.iter().copied().collect() } }
+impl U64Set {
+    #[verifier::external_body]
+    pub fn with_capacity(n: usize) -> (r: U64Set)
+        ensures r@ == Set::<u64>::empty(),
+    { U64Set { inner: std::collections::HashSet::with_capacity(n) } }
+
+    #[verifier::external_body]
+    pub fn insert(&mut self, v: u64) -> (r: bool)
+        ensures final(self)@ == old(self)@.insert(v),
+    { self.inner.insert(v) }
+}
 
 #[verifier::external_body]
 pub fn std_set_into_vec(s: U64Set) -> (v: Vec<u64>)
@@ -44,32 +51,65 @@ proof {
 
 //@extract fn compact from src/core/compact.rs ret=res tags=C08,C14
 //@fnattr #[verifier::loop_isolation(false)]
-//@rewrite? "let unique_cells: HashSet<u64> = cells.iter().copied().collect();" => "let unique_cells: U64Set = std_collect_set(cells);"
+//@rewrite? "let mut unique_cells: HashSet<u64> = HashSet::with_capacity(cells.len());" => "let mut unique_cells: U64Set = U64Set::with_capacity(cells.len());"
 //@rewrite? "let mut current_cells: Vec<u64> = unique_cells.into_iter().collect();" => "let mut current_cells: Vec<u64> = std_set_into_vec(unique_cells);"
 //@rewrite? "current_cells.sort_unstable_by_key(|&cell| scan_key(cell));" => "std_sort_by_scan_key(&mut current_cells);"
 //@spec
 ensures
-    all_canonical(cells@) ==> res is Ok,                                                                           // [C08:compact.total]
-    all_canonical(cells@) && res is Ok ==> all_canonical(res->Ok_0@),                                              // [C05,C14:compact.canonical-output]
-    all_canonical(cells@) && res is Ok ==> (forall|m: int| max_res_le(cells@, m) ==> max_res_le(res->Ok_0@, m)),   // [C08:compact.no-finer-output]
-    all_canonical(cells@) && res is Ok ==> (forall|y: A5Cell| valid(y) && max_res_le(cells@, y.resolution as int)
+    all_decodable(cells@) ==> res is Ok,                                                                           // [C08:compact.total]
+    !all_decodable(cells@) ==> res is Err,                                                                         // [C14:compact.rejects-non-cells]
+    all_decodable(cells@) && res is Ok ==> all_canonical(res->Ok_0@),                                              // [C05,C14:compact.canonical-output]
+    all_decodable(cells@) && res is Ok ==> (forall|m: int| max_res_le(cells@, m) ==> max_res_le(res->Ok_0@, m)),   // [C08:compact.no-finer-output]
+    all_decodable(cells@) && res is Ok ==> (forall|y: A5Cell| valid(y) && max_res_le(cells@, y.resolution as int)
         ==> (covers(res->Ok_0@, y) <==> covers(cells@, y))),                                                       // [C08:compact.cover-preserved]
-    all_canonical(cells@) && antichain_set(cells@) && res is Ok ==> antichain(res->Ok_0@),                         // [C08:compact.stays-non-overlapping]
-    all_canonical(cells@) && res is Ok ==> res->Ok_0@.no_duplicates() && sorted_scan(res->Ok_0@),                  // [C08:compact.no-duplicates]
-    all_canonical(cells@) && antichain_set(cells@) && res is Ok ==> maximal(res->Ok_0@),                           // [C10:compact.maximal]
+    all_decodable(cells@) && antichain_set(cells@) && res is Ok ==> antichain(res->Ok_0@),                         // [C08:compact.stays-non-overlapping]
+    all_decodable(cells@) && res is Ok ==> res->Ok_0@.no_duplicates() && sorted_scan(res->Ok_0@),                  // [C08:compact.no-duplicates]
+    all_decodable(cells@) && antichain_set(cells@) && res is Ok ==> maximal(res->Ok_0@),                           // [C10:compact.maximal]
     res is Ok ==> no_merge_possible(res->Ok_0@),                                                                   // [C10:compact.fixed-point]
-    res is Ok ==> (forall|s: Seq<u64>| sorted_scan(s) && s.to_set() == cells@.to_set() && no_merge_possible(s) ==> res->Ok_0@ == s),   // [C10:compact.fixed-point-returned-unchanged]
+    res is Ok ==> (forall|s: Seq<u64>| sorted_scan(s) && s.to_set() == canon_set(cells@, cells@.len() as int) && no_merge_possible(s) ==> res->Ok_0@ == s),   // [C10:compact.fixed-point-returned-unchanged]
 //@at entry
 hide(enc); hide(dec); hide(decodable); hide(probe); hide(kids_ids); hide(valid); hide(is_desc); hide(anc);
 //@at before-return 1
 proof {
     lemma_empty_maximal();
-    assert forall|s: Seq<u64>| #[trigger] sorted_scan(s) && s.to_set() == cells@.to_set() implies Seq::<u64>::empty() == s by {
+    assert forall|s: Seq<u64>| #[trigger] sorted_scan(s) && s.to_set() == canon_set(cells@, cells@.len() as int) implies Seq::<u64>::empty() == s by {
         if s.len() > 0 {
             assert(s.to_set().contains(s[0]));
-            assert(cells@.contains(s[0]));
+            lemma_canon_set_mem(cells@, 0);
+            assert(canon_set(cells@, 0).contains(s[0]));
         }
         assert(s =~= Seq::<u64>::empty());
+    }
+}
+//@loop 1
+invariant
+    unique_cells@ == canon_set(cells@, __k_cell as int),                                                           // [C08:compact.canonical-forms-collected]
+    forall|j: int| 0 <= j < __k_cell ==> decodable(#[trigger] cells@[j]),
+//@at loop 1 body-start
+proof {
+    lemma_res_range(cell, 29);
+    lemma_dec_res(cell);
+    if decodable(cell) {
+        lemma_enc_dec(cell);
+        assert(anc(dec(cell), res_of(cell)) == dec(cell)) by { reveal(anc); }
+    }
+}
+//@at loop 1 body-end
+proof {
+    lemma_canon_set_mem(cells@, __k_cell as int);
+    lemma_canon_set_mem(cells@, __k_cell as int + 1);
+    assert(canon_set(cells@, __k_cell as int + 1) =~= canon_set(cells@, __k_cell as int).insert(canon(cell))) by {
+        assert forall|v: u64| canon_set(cells@, __k_cell as int + 1).contains(v) <==> canon_set(cells@, __k_cell as int).insert(canon(cell)).contains(v) by {
+            if canon_set(cells@, __k_cell as int + 1).contains(v) {
+                let j = choose|j: int| 0 <= j < __k_cell + 1 && v == canon(#[trigger] cells@[j]);
+                if j < __k_cell { assert(canon_set(cells@, __k_cell as int).contains(v)); }
+            }
+            if canon_set(cells@, __k_cell as int).contains(v) {
+                let j = choose|j: int| 0 <= j < __k_cell && v == canon(#[trigger] cells@[j]);
+                assert(0 <= j < __k_cell + 1);
+            }
+            if v == canon(cell) { assert(v == canon(cells@[__k_cell as int])); }
+        }
     }
 }
 //@at after "std_sort_by_scan_key(&mut current_cells);"
@@ -83,8 +123,8 @@ proof {
             assert(!scan_lt(current_cells@[j], current_cells@[k]));
         }
     }
-    assert(current_cells@.to_set() == cells@.to_set());                                                            // [C08:compact.input-set]
-    if all_canonical(cells@) {
+    assert(current_cells@.to_set() == canon_set(cells@, cells@.len() as int));                                     // [C08:compact.input-set]
+    if all_decodable(cells@) {
         lemma_initial_list(cells@, init);
         lemma_refines_refl(init);
         if antichain_set(cells@) {
@@ -92,19 +132,19 @@ proof {
         }
     }
 }
-//@loop 1
+//@loop 2
 invariant
     current_cells@.len() <= 0x0fffffffffffffff, // [C14:compact.length-bound]
-    all_canonical(cells@) ==> refines(current_cells@, init),   // [C08:compact.pass-keeps-region]
+    all_decodable(cells@) ==> refines(current_cells@, init),   // [C08:compact.pass-keeps-region]
     !changed ==> no_merge_possible(current_cells@),            // [C10:compact.last-pass-found-nothing]
     no_merge_possible(init) ==> current_cells@ == init,        // [C10:compact.nothing-to-merge-nothing-changes]
 decreases current_cells@.len(), (if changed { 1int } else { 0int }),
 //@at after-let i
 proof {
     lemma_comb_start(current_cells@);
-    if all_canonical(cells@) { assert(all_canonical(current_cells@)) by { reveal(refines); } lemma_refines_refl(current_cells@); }
+    if all_decodable(cells@) { assert(all_canonical(current_cells@)) by { reveal(refines); } lemma_refines_refl(current_cells@); }
 }
-//@loop 2
+//@loop 3
 invariant
     i <= current_cells@.len(),                  // [C14:compact.scan-in-bounds]
     result@.len() <= i,                         // [C14:compact.pass-does-not-grow]
@@ -112,19 +152,19 @@ invariant
     !changed ==> result@ == current_cells@.subrange(0, i as int),                                   // [C10:compact.unchanged-prefix]
     !changed ==> (forall|a: int| 0 <= a < i ==> !merge_test(current_cells@, a)),                     // [C10:compact.no-merge-so-far]
     no_merge_possible(current_cells@) ==> !changed,                                                  // [C10:compact.merge-implies-test]
-    all_canonical(cells@) ==> refines(comb(result@, current_cells@, i as int), current_cells@),   // [C08:compact.scan-keeps-region]
+    all_decodable(cells@) ==> refines(comb(result@, current_cells@, i as int), current_cells@),   // [C08:compact.scan-keeps-region]
 decreases current_cells@.len() - i,
-//@at loop 2 body-start
+//@at loop 3 body-start
 proof {
     lemma_comb_keep(result@, current_cells@, i as int);
     lemma_res_range(current_cells@[i as int], 29);
 }
-//@loop 3
+//@loop 4
 invariant
     1 <= j <= expected_children,
     has_all_siblings ==> (forall|jj: int| 1 <= jj < j ==> #[trigger] current_cells@[i + jj] == cell + jj * stride),   // [C08:compact.sibling-test]
     !has_all_siblings ==> !merge_test(current_cells@, i as int),                                                     // [C10:compact.test-failed]
-//@at loop 3 body-start
+//@at loop 4 body-start
 proof {
     lemma_stride_bound(resolution as int);
     assert(j * stride <= 11 * 0x0400000000000000) by (nonlinear_arith)
@@ -132,7 +172,7 @@ proof {
 }
 //@at before "let parent = cell_to_parent"
 proof {
-    if all_canonical(cells@) {
+    if all_decodable(cells@) {
         assert(canonical(cell)) by { reveal(refines); }
         lemma_canonical_decodable(cell);
         lemma_dec_res(cell);
@@ -142,7 +182,7 @@ proof {
 proof {
     assert(merge_test(current_cells@, i as int));
     lemma_dec_res(cell);
-    if all_canonical(cells@) {
+    if all_decodable(cells@) {
         lemma_comb_merge(result@, current_cells@, i as int, cell, parent);
     }
 }
@@ -160,14 +200,14 @@ proof {
 proof {
     assert(current_cells@.subrange(0, current_cells@.len() as int) =~= current_cells@);
     lemma_comb_end(result@, current_cells@);
-    if all_canonical(cells@) { lemma_refines_trans(result@, current_cells@, init); }
+    if all_decodable(cells@) { lemma_refines_trans(result@, current_cells@, init); }
 }
 //@at before-tail
 proof {
-    assert forall|s: Seq<u64>| sorted_scan(s) && s.to_set() == cells@.to_set() && no_merge_possible(s) implies current_cells@ == s by {
+    assert forall|s: Seq<u64>| sorted_scan(s) && s.to_set() == canon_set(cells@, cells@.len() as int) && no_merge_possible(s) implies current_cells@ == s by {
         lemma_sorted_scan_unique(s, init);
     }
-    if all_canonical(cells@) {
+    if all_decodable(cells@) {
         lemma_compact_final(cells@, init, current_cells@);
         if antichain_set(cells@) { lemma_maximal(current_cells@); }
     }
